@@ -8,7 +8,7 @@ LABEL_RE = re.compile(r'/\*#([A-Za-z0-9_.:<> ,&\'\[\]-]+?)\*/')
 # messages that mean "the solver could not discharge this obligation" (a failed obligation)
 FAIL_PATTERNS = [
     (r'postcondition not satisfied', 'postcondition'),
-    (r'precondition not satisfied', 'precondition'),
+    (r'precondition not satisfied|precondition not met', 'precondition'),
     (r'assertion failed', 'assertion'),
     (r'invariant not satisfied', 'invariant'),
     (r'loop ensures not satisfied|ensures not satisfied', 'postcondition'),
@@ -97,5 +97,5 @@ def classify(msg):
         if re.search(pat, msg): return ('undecided', 'rlimit')
     for pat, kind in FAIL_PATTERNS:
         if re.search(pat, msg): return ('failed', kind)
-    return ('undecided', 'front-end')
+    return ('unknown', 'other-proof')
 
